@@ -105,6 +105,21 @@ def case_term(op, res):
     if k == "heap":
         return "CHeap %s %s" % (C.coq_list(["(%d, %d)" % (q, r) for q, r in op[1]]),
                                 C.coq_list(["%d%%nat" % i for i in res]))
+    if k == "heappurge":
+        return "CHeap %s %s" % (C.coq_list(["(%d, %d)" % (q, r) for q, r in purge_valid_times(op)]),
+                                C.coq_list(["%d%%nat" % i for i in res]))
+    if k == "hist":
+        INF = 0x7FF0000000000000
+        st = []
+        for x in op[1]:
+            st.append({"new": lambda: "HNew %d %d" % (x[1], x[2]), "from": lambda: "HFrom %d" % x[1],
+                       "upd": lambda: "HUpd %d %d" % (x[1], x[2]),
+                       "updadd": lambda: "HUpdAdd %d %d %d" % (x[1], x[2], x[3]),
+                       "updfrom": lambda: "HUpdFrom %d" % x[1], "updinf": lambda: "HUpd %d %d" % (INF, INF)}
+                      .get(x[0], lambda: "HCopy")())
+        return "CHist %s %d %d %d %d %d %s %d %d %d %d" % (
+            C.coq_list(st), op[2][0], op[2][1], op[3], res[0], res[1],
+            C.coq_list([C.coq_bool(x) for x in res[2:14]]), res[14], res[15], res[16], res[17])
 
 
 def ulp(x):
@@ -120,7 +135,7 @@ def oracle(op, res):
     Returns None if it holds (or the case is outside the property's domain), else a message."""
     k = op[0]
     if res and res[0] in ("EXC", "ERR"):
-        return "exception %s" % res[1]
+        return "exception %s in op %s" % (res[1], k)
     if k == "add":
         q, r, d = b2f(op[1]), b2f(op[2]), b2f(op[3])
         nq, nr = b2f(res[0]), b2f(res[1])
@@ -189,8 +204,10 @@ def oracle(op, res):
         else:              # an infinite time however built equals the singleton
             exp = [1, 0, 0, 0, 1, 1, 1, 0, 0, 0, 1, 1]
         return None if list(res) == exp else "comparison with the module-level inf: %r != exact %r" % (res, exp)
-    if k == "heap":
-        vals = [Fr(b2f(q)) + Fr(b2f(r)) for q, r in op[1]]
+    if k == "hist":
+        return oracle_hist(op, res)
+    if k in ("heap", "heappurge"):
+        vals = [Fr(b2f(q)) + Fr(b2f(r)) for q, r in (op[1] if k == "heap" else purge_valid_times(op))]
         if sorted(res) != list(range(len(vals))):
             return "heap did not return every event once: %r" % (res,)
         for a, b in zip(res, res[1:]):
@@ -198,6 +215,152 @@ def oracle(op, res):
                 return "C heap returned time %s before the smaller time %s" % (float(vals[a]), float(vals[b]))
         return None
     return None
+
+
+def purge_valid_times(op):
+    """times of the events that are valid after the purge: one per handler, the victim's is the new one"""
+    ts = [list(t) for t in op[1]]
+    ts[int(op[2])] = list(op[4])
+    return ts
+
+
+def last_assignment(steps):
+    """what the object must hold after its history: ("val", q, r) | ("from", x) | ("add", q, r, d)"""
+    INF = f2b(math.inf)
+    cur = None
+    for x in steps:
+        if x[0] in ("new", "upd"):
+            cur = ("val", x[1], x[2])
+        elif x[0] in ("from", "updfrom"):
+            cur = ("from", x[1])
+        elif x[0] == "updadd":
+            cur = ("add", x[1], x[2], x[3])
+        elif x[0] == "updinf":
+            cur = ("val", INF, INF)
+    return cur
+
+
+def oracle_hist(op, res):
+    if len(res) != 21:
+        return "result shape"
+    if res[18] != 1:
+        return "update()/copy aliased or changed another Time object (or returned a value)"
+    if list(res[19:21]) != list(res[0:2]):
+        return "operations changed the Time object"
+    fq, fr = res[0], res[1]
+    la = last_assignment(op[1])
+    if la[0] == "val":
+        if (fq, fr) != (la[1], la[2]):
+            return "Time object does not hold the value of its last assignment: (%r, %r) instead of (%r, %r)" % (
+                b2f(fq), b2f(fr), b2f(la[1]), b2f(la[2]))
+    else:
+        m = oracle(["from", la[1]], [fq, fr]) if la[0] == "from" else oracle(["add", la[1], la[2], la[3]], [fq, fr])
+        if m:
+            return "value after the history: " + m
+    hist = "after history %s: " % "/".join(x[0] for x in op[1])
+    for m in (oracle(["cmp", fq, fr, op[2][0], op[2][1]], list(res[2:8])),
+              oracle(["cmp", op[2][0], op[2][1], fq, fr], list(res[8:14])),
+              oracle(["add", fq, fr, op[3]], list(res[14:16])),
+              oracle(["sub", fq, fr, op[2][0], op[2][1]], [res[16]]),
+              oracle(["sub", op[2][0], op[2][1], fq, fr], [res[17]])):
+        if m:
+            return hist + m
+    return None
+
+
+def hist_ops(ctx, n):
+    """object histories: construct, update() (also repeatedly, also from/to inf, from results of + and from_float),
+    copy / deepcopy / pickle / dill round trips, then all comparisons, +, - on the final object"""
+    rng = ctx.rng
+    qs, rs, ds = pools(rng)
+    INF = f2b(math.inf)
+    ops = []
+    for _ in range(n):
+        vals = []                                   # finite values the object held (for choosing the other operand)
+
+        def tm():
+            q, r = gen_time(rng, qs, rs)
+            vals.append((q, r))
+            return q, r
+        u = rng.random()
+        if u < 0.75:
+            q, r = tm()
+            steps = [["new", f2b(q), f2b(r)]]
+        elif u < 0.9:
+            steps = [["from", f2b(rng.random() * 2.0 ** rng.randrange(-20, 40))]]
+        else:
+            steps = [["new", INF, INF]]
+        nupd = 0
+        for _ in range(rng.randrange(1, 5)):
+            v = rng.random()
+            if v < 0.5:
+                q, r = tm()
+                steps.append(["upd", f2b(q), f2b(r)])
+                nupd += 1
+            elif v < 0.58:
+                q, r = gen_time(rng, qs, rs)
+                d = rng.choice(ds[:-1]) if rng.random() < 0.5 else rng.expovariate(1.0) * 10 ** rng.randrange(-6, 4)
+                steps.append(["updadd", f2b(q), f2b(r), f2b(d)])
+                vals.append((q + math.floor(r + d), 0.5))
+                nupd += 1
+            elif v < 0.64:
+                x = rng.random() * 2.0 ** rng.randrange(-20, 40)
+                steps.append(["updfrom", f2b(x)])
+                vals.append((math.floor(x), 0.5))
+                nupd += 1
+            elif v < 0.70:
+                steps.append(["updinf"])
+                nupd += 1
+            else:
+                steps.append([rng.choice(["copy", "deepcopy", "pickle", "dill"])])
+        if nupd == 0:
+            q, r = tm()
+            steps.append(["upd", f2b(q), f2b(r)])
+        if rng.random() < 0.5:
+            steps.append([rng.choice(["copy", "deepcopy", "pickle", "dill"])])
+        w = rng.random()
+        if vals and w < 0.75:
+            # near one of the values the object holds or held: equal, a remainder apart, a quotient apart, in between
+            q, r = rng.choice(vals) if rng.random() < 0.5 else vals[-1]
+            z = rng.random()
+            if z < 0.25:
+                b = (q, r)
+            elif z < 0.5:
+                b = (q, rng.choice(rs))
+            elif z < 0.7:
+                b = (max(q + rng.choice([-1.0, 1.0]), 0.0), rng.choice(rs))
+            else:
+                q2 = rng.choice(vals)[0]
+                b = (math.floor((q + q2) / 2.0), rng.choice(rs))
+        elif w < 0.8:
+            b = (math.inf, math.inf)
+        else:
+            b = gen_time(rng, qs, rs)
+        if not (b[0] == math.inf or (math.isfinite(b[0]) and b[0] <= 2.0 ** 52)):
+            b = gen_time(rng, qs, rs)
+        d = rng.choice(ds) if rng.random() < 0.5 else rng.expovariate(1.0) * 10 ** rng.randrange(-9, 4)
+        ops.append(["hist", steps, [f2b(b[0]), f2b(b[1])], f2b(d)])
+    return ops
+
+
+def purge_ops(ctx, n):
+    """the C heap after a purge (delete_events, reached when a handler's lazy-deletion counter leaves the range of a C
+    unsigned int): all remaining valid events must still come out in the exact order of their times"""
+    rng = ctx.rng
+    ops = []
+    for _ in range(n):
+        nh = rng.randrange(6, 16)
+        q0 = float(rng.choice([0, 1, 57854, 2 ** 31, 2 ** 40]))
+
+        def t():
+            u = rng.random()
+            if u < 0.3:
+                return [f2b(q0 + rng.randrange(0, 3)), f2b(min(rng.choice([0.9999, 0.5, 0.25]) + rng.randrange(0, 64) * 2.0 ** -53, PRED1))]
+            return [f2b(q0 + rng.randrange(0, 40)), f2b(rng.random())]
+        times = [t() for _ in range(nh)]
+        stale = [t() for _ in range(rng.randrange(2, 9))]
+        ops.append(["heappurge", times, rng.randrange(nh), stale, t()])
+    return ops
 
 
 def heap_ops(ctx, n):
@@ -256,7 +419,8 @@ def run(ctx, ops_override=None):
         broken.append("Props/C14.v does not check: " + out[-600:])
     n = ctx.n(4000, 200000)
     corpus = load_corpus()
-    ops = ops_override if ops_override is not None else corpus + gen_ops(ctx, n) + heap_ops(ctx, ctx.n(300, 5000))
+    ops = ops_override if ops_override is not None else corpus + gen_ops(ctx, n) + heap_ops(ctx, ctx.n(300, 5000)) \
+        + hist_ops(ctx, ctx.n(1500, 40000)) + purge_ops(ctx, ctx.n(200, 3000))
     mono = [] if ops_override is not None else monotone_pairs(ctx, ctx.n(500, 20000))
     res = run_impl(ctx, ops + mono)
     res_main, res_mono = res[:len(ops)], res[len(ops):]
@@ -319,7 +483,10 @@ def run(ctx, ops_override=None):
         "traces_validated_against_impl": neval,
         "case_files": nfiles, "case_files_ok": nok,
         "explanation": "Props/C14.v re-checked (%d theorems); bit-exact correspondence of Model/Time.v with "
-                       "jellyfysh.base.time.Time evaluated in Coq; exact-rational oracle on the implementation" % nthm,
+                       "jellyfysh.base.time.Time evaluated in Coq, including objects with a history (update() from "
+                       "fresh / computed / infinite times, copy, deepcopy, pickle, dill) on which every comparison, + and "
+                       "- must see the value of the last assignment; the real C heap drained in order, also after a "
+                       "purge (delete_events); exact-rational oracle on the implementation" % nthm,
         "trusted_base": TRUSTED,
     }, ASSUME)
 
@@ -337,6 +504,7 @@ TRUSTED = [
 ASSUME = [
     "the model is tied to the code by bit-exact differential evaluation on generated inputs, not by a semantics of Python",
     "heap.c's comparison is the same quotient-then-remainder function (checked in C06)",
+    "Time defines __eq__ without __hash__ (unhashable) and no __float__: neither is exercised",
 ]
 
 
